@@ -1,4 +1,5 @@
 #include "gen.hpp"
+#include "model.hpp"
 
 #include <algorithm>
 #include <functional>
@@ -602,6 +603,7 @@ struct HistOpts {
     bool faults = false;     // hash budget / allocation failure
     bool relocate = false;   // ids change while a class is unloaded
     bool twice = true;       // occasionally update twice in a row
+    bool hash_faults_only = false;
     double p_check = 0.8;
 };
 
@@ -760,14 +762,14 @@ void history(
             auto& up = g.ev_update(pi);
             bool faulty = false;
             if (o.faults && g.r.chance(0.3)) {
-                if (has_hash && g.r.chance(0.6)) {
+                if (has_hash && (o.hash_faults_only || g.r.chance(0.6))) {
                     static const int budgets[] = {1, 1, 2, 3, 10};
                     up.hash_budget = budgets[g.r.below(5)];
                     up.hash_seed = 1 + g.r.below(1000000);
-                } else {
+                } else if (!o.hash_faults_only) {
                     up.alloc_fail_at = (long long)g.r.below(60);
                 }
-                faulty = true;
+                faulty = up.hash_budget || up.alloc_fail_at >= 0;
             } else if (has_hash && g.r.chance(0.3)) {
                 up.hash_seed = 1 + g.r.below(1000000);
             }
@@ -831,6 +833,74 @@ Plan gen_C01(std::uint64_t seed, int tier) {
     return gen_basic("C01", seed, tier, o);
 }
 
+// registry made of every record of policy pi (as if all were loaded)
+Registry full_registry(const Plan& p, int pi, const std::set<int>& skip = {}) {
+    Registry r;
+    for (int i = 0; i < (int)p.recs.size(); ++i) {
+        auto& rec = p.recs[i];
+        if (rec.pol != pi || skip.count(i))
+            continue;
+        if (rec.kind == RK_CLASS)
+            r.classes.push_back(i);
+        else if (rec.kind == RK_METHOD) {
+            r.methods.push_back(i);
+            r.defs[i];
+        }
+    }
+    for (int i = 0; i < (int)p.recs.size(); ++i) {
+        auto& rec = p.recs[i];
+        if (rec.pol == pi && rec.kind == RK_DEF && !skip.count(i) &&
+            !skip.count(rec.meth))
+            r.defs[rec.meth].push_back(i);
+    }
+    return r;
+}
+
+// legal argument classes of a method parameter
+std::vector<int> legal_classes(const Lattice& L, int param_class) {
+    std::vector<int> v;
+    for (int c = 0; c < L.n; ++c)
+        if (L.reg[c] && !L.abstract[c] && L.le(c, param_class))
+            v.push_back(c);
+    return v;
+}
+
+// find a tuple of method mi whose outcome is an error (or a definition)
+bool find_tuple(
+    Gen& g, const Registry& r, const Lattice& L, int mi, bool want_error,
+    std::vector<int>& tuple) {
+    auto& m = g.p.recs[mi];
+    std::vector<std::vector<int>> cand;
+    for (int c : m.vp) {
+        cand.push_back(legal_classes(L, c));
+        if (cand.back().empty())
+            return false;
+    }
+    auto it = r.defs.find(mi);
+    std::vector<int> defs = it == r.defs.end() ? std::vector<int>() : it->second;
+    for (int t = 0; t < 40; ++t) {
+        tuple.clear();
+        for (auto& c : cand)
+            tuple.push_back(c[g.r.below(c.size())]);
+        Res res = dispatch(g.p, L, defs, tuple);
+        if ((res.kind != RES_DEF) == want_error)
+            return true;
+    }
+    return false;
+}
+
+Event make_call(Gen& g, int pi, int mi, const std::vector<int>& tuple) {
+    Event e;
+    e.op = OP_CALL;
+    e.pol = pi;
+    e.meth = mi;
+    e.args = tuple;
+    e.aliases.assign(tuple.size(), 0);
+    e.rts.assign(tuple.size(), RT_REF);
+    e.mode = HM_THROW;
+    return e;
+}
+
 Plan gen_C02(std::uint64_t seed, int tier) {
     Rng r(seed ^ 0xC02);
     BasicOpts o;
@@ -844,7 +914,441 @@ Plan gen_C02(std::uint64_t seed, int tier) {
     o.max_meth = 3;
     Plan p = gen_basic("C02", seed, tier, o);
     p.profile = "errors" + p.profile.substr(5);
+    // fault: the handler returns (or is the shipped default) -> abort
+    if (p.pols[0] != "thr" && r.chance(0.12)) {
+        Gen g(seed ^ 0xAB0, tier);
+        g.p = p;
+        Registry reg = full_registry(p, 0);
+        Lattice L = make_lattice(p, reg);
+        int n = r.range(1, 2);
+        for (int i = 0; i < n && !reg.methods.empty(); ++i) {
+            int mi = reg.methods[r.below(reg.methods.size())];
+            std::vector<int> tuple;
+            if (!find_tuple(g, reg, L, mi, true, tuple))
+                continue;
+            Event e = make_call(g, 0, mi, tuple);
+            e.fork = 1;
+            e.mode = r.chance(0.7) ? HM_RETURNS : HM_DEFAULT;
+            e.resolve = 0;
+            p.events.push_back(e);
+        }
+        // and calls still dispatch afterwards (the parent never aborted)
+        g.p = p;
+        g.ev_check(0, 1, 60);
+        p = g.p;
+    }
     return p;
+}
+
+// ---------------------------------------------------------------------------
+// C09: virtual_ptr lifetimes interleaved with updates
+
+Plan gen_C09(std::uint64_t seed, int tier) {
+    Gen g(seed, tier);
+    g.p.prop = "C09";
+    g.p.profile = "vptr";
+    static const std::vector<std::string> pols = {
+        "dbg", "rel", "vec", "map", "ind", "ind", "cind", "cind", "thr",
+        "sdbg", "srel"};
+    std::string pol = pols[g.r.below(pols.size())];
+    bool indirect = pol == "ind" || pol == "cind";
+    g.p.pols = {pol};
+    BasicOpts o;
+    o.max_cls = 9;
+    o.max_alias = g.r.chance(0.25) && !no_alias_policy(pol) ? 2 : 1;
+    o.p_abstract = 0.08;
+    basic_world(g, o, small_ids_policy(pol));
+    int n = g.p.w.ncls;
+    // module A: every class, 1-3 pointer-taking methods and their definitions
+    std::vector<int> A;
+    auto cr = g.class_recs(0, g.r.chance(0.5) ? ST_COMPLETE : -1, o.max_alias > 1);
+    for (auto& v : cr)
+        for (int ri : v)
+            A.push_back(ri);
+    std::vector<int> meths;
+    for (int s : g.pick_slots(VP_SLOTS, g.r.range(1, 3))) {
+        int mi = g.method(0, s, 0.8);
+        meths.push_back(mi);
+        A.push_back(mi);
+        for (int di : g.defs(0, mi, g.r.range(1, 6), 0.7))
+            A.push_back(di);
+    }
+    // module B, loaded later: another method with many definitions, so that
+    // the dispatch data grows and is reallocated by the next update
+    std::vector<int> B;
+    {
+        int mi = g.method(0, g.r.chance(0.5) ? 10 : 8, 0.9);
+        B.push_back(mi);
+        for (int di : g.defs(0, mi, g.r.range(3, 10), 0.5))
+            B.push_back(di);
+        int m2 = g.method(0, g.r.chance(0.5) ? 4 : 0, 0.5);
+        B.push_back(m2);
+        for (int di : g.defs(0, m2, g.r.range(1, 5), 0.5))
+            B.push_back(di);
+    }
+    g.ev_load(g.order(A));
+    g.ev_update(0);
+    // every construction route, including the shared_ptr value categories
+    int routes = ROUTES_BASIC | (1 << 5) | (1 << 6);
+    g.ev_check(0, routes, 120);
+
+    Registry reg = full_registry(g.p, 0, std::set<int>(B.begin(), B.end()));
+    Lattice L = make_lattice(g.p, reg);
+    struct H {
+        bool live = false, shared = false;
+        int cls = 0;
+        int epoch = 0;
+    } held[MAXVP];
+    int epoch = 1;
+    bool b_loaded = false;
+    auto use = [&](int mi) {
+        auto& m = g.p.recs[mi];
+        std::string kinds = SLOT_KINDS[m.slot];
+        std::vector<char> vk;
+        for (char c : kinds)
+            if (c != 'I')
+                vk.push_back(c);
+        Event e;
+        e.op = OP_VP_USE;
+        e.pol = 0;
+        e.meth = mi;
+        bool any = false;
+        for (std::size_t i = 0; i < m.vp.size(); ++i) {
+            int pick = -1;
+            if (vk[i] == 'Q' || vk[i] == 'C' || vk[i] == 'W') {
+                std::vector<int> ok;
+                for (int k = 0; k < MAXVP; ++k)
+                    if (held[k].live && held[k].shared == (vk[i] == 'W') &&
+                        L.le(held[k].cls, m.vp[i]) &&
+                        (indirect || held[k].epoch == epoch))
+                        ok.push_back(k);
+                if (!ok.empty() && g.r.chance(0.85))
+                    pick = ok[g.r.below(ok.size())];
+            }
+            if (pick >= 0) {
+                e.args.push_back(0x1000 + pick);
+                any = true;
+            } else {
+                auto lc = legal_classes(L, m.vp[i]);
+                if (lc.empty())
+                    return;
+                e.args.push_back(lc[g.r.below(lc.size())]);
+            }
+            e.aliases.push_back(0);
+        }
+        if (any)
+            g.p.events.push_back(e);
+    };
+    int steps = g.r.range(4, tier ? 30 : 16);
+    for (int s = 0; s < steps; ++s) {
+        int what = (int)g.r.below(10);
+        if (what < 4) {
+            // make a pointer to an object acceptable to one of the methods
+            int mi = meths[g.r.below(meths.size())];
+            auto& m = g.p.recs[mi];
+            std::string kinds = SLOT_KINDS[m.slot];
+            std::vector<char> vk;
+            for (char c : kinds)
+                if (c != 'I')
+                    vk.push_back(c);
+            int pos = (int)g.r.below(m.vp.size());
+            if (vk[pos] != 'Q' && vk[pos] != 'C' && vk[pos] != 'W')
+                continue;
+            auto lc = legal_classes(L, m.vp[pos]);
+            if (lc.empty())
+                continue;
+            Event e;
+            e.op = OP_VP_MAKE;
+            e.pol = 0;
+            e.vslot = (int)g.r.below(MAXVP);
+            e.cls = lc[g.r.below(lc.size())];
+            e.alias = 0;
+            e.shared = vk[pos] == 'W';
+            e.route = (int)g.r.below(e.shared ? 8 : RT_COUNT);
+            g.p.events.push_back(e);
+            held[e.vslot] = {true, e.shared != 0, e.cls, epoch};
+        } else if (what < 5) {
+            std::vector<int> live;
+            for (int k = 0; k < MAXVP; ++k)
+                if (held[k].live)
+                    live.push_back(k);
+            if (live.empty())
+                continue;
+            Event e;
+            e.op = OP_VP_COPY;
+            e.pol = 0;
+            e.vfrom = live[g.r.below(live.size())];
+            e.vslot = (int)g.r.below(MAXVP);
+            if (e.vslot == e.vfrom)
+                continue;
+            e.route = (int)g.r.below(2);
+            g.p.events.push_back(e);
+            held[e.vslot] = held[e.vfrom];
+        } else if (what < 8) {
+            use(meths[g.r.below(meths.size())]);
+        } else if (what < 9) {
+            // an update in the middle of the pointers' lives
+            if (g.r.chance(0.6)) {
+                if (!b_loaded)
+                    g.ev_load(g.order(B));
+                else {
+                    auto rv = B;
+                    std::stable_sort(rv.begin(), rv.end(), [&](int a, int b) {
+                        return g.p.recs[a].kind == RK_DEF &&
+                            g.p.recs[b].kind != RK_DEF;
+                    });
+                    g.ev_unload(rv);
+                }
+                b_loaded = !b_loaded;
+            }
+            g.ev_update(0);
+            ++epoch;
+            if (g.r.chance(0.3))
+                g.ev_check(0, routes, 60);
+        } else {
+            Event e;
+            e.op = OP_VP_DROP;
+            e.pol = 0;
+            e.vslot = (int)g.r.below(MAXVP);
+            g.p.events.push_back(e);
+            held[e.vslot].live = false;
+        }
+    }
+    for (int mi : meths)
+        use(mi);
+    return g.p;
+}
+
+// ---------------------------------------------------------------------------
+// C15: the fault "lost registration", at every place a class can occur
+
+Plan gen_C15(std::uint64_t seed, int tier) {
+    Gen g(seed, tier);
+    g.p.prop = "C15";
+    g.p.profile = "lost-registration";
+    g.p.allow_missing = 1;
+    static const std::vector<std::string> pols = {"dbg", "dbg", "cind", "sdbg",
+                                                  "sdbg", "dfr"};
+    std::string pol = pols[g.r.below(pols.size())];
+    g.p.pols = {pol};
+    BasicOpts o;
+    o.min_cls = 2;
+    o.max_cls = 8;
+    o.p_abstract = 0.05;
+    o.max_meth = 3;
+    o.min_meth = 1;
+    o.max_defs = 4;
+    basic_world(g, o, false);
+    auto all = basic_registry(g, o, 0);
+    int n = g.p.w.ncls;
+    int place = (int)g.r.below(7);
+    g.p.profile += "/place" + std::to_string(place);
+    auto class_recs_of = [&](int c) {
+        std::set<int> s;
+        for (int ri : all)
+            if (g.p.recs[ri].kind == RK_CLASS && g.p.recs[ri].cls == c)
+                s.insert(ri);
+        return s;
+    };
+    auto refs_class = [&](int ri, int c) {
+        auto& rec = g.p.recs[ri];
+        if (rec.kind == RK_CLASS)
+            return std::find(rec.bases.begin(), rec.bases.end(), c) !=
+                rec.bases.end() &&
+                rec.cls != c;
+        return std::find(rec.vp.begin(), rec.vp.end(), c) != rec.vp.end();
+    };
+    auto without = [&](const std::set<int>& skip) {
+        std::vector<int> v;
+        for (int ri : all)
+            if (!skip.count(ri) &&
+                !(g.p.recs[ri].kind == RK_DEF && skip.count(g.p.recs[ri].meth)))
+                v.push_back(ri);
+        return v;
+    };
+    if (place <= 2) {
+        // the class is referenced (base list / method / definition parameter)
+        // but has no record of its own: update must report it
+        std::vector<int> cand;
+        for (int c = 0; c < n; ++c) {
+            bool refd = false;
+            for (int ri : all) {
+                auto& rec = g.p.recs[ri];
+                if (place == 0 && rec.kind == RK_CLASS && refs_class(ri, c))
+                    refd = true;
+                if (place == 1 && rec.kind == RK_METHOD && refs_class(ri, c))
+                    refd = true;
+                if (place == 2 && rec.kind == RK_DEF && refs_class(ri, c))
+                    refd = true;
+            }
+            if (refd)
+                cand.push_back(c);
+        }
+        if (cand.empty()) {
+            g.ev_load(g.order(all));
+            g.ev_update(0);
+            g.ev_check(0, 1, 100);
+            return g.p;
+        }
+        int victim = cand[g.r.below(cand.size())];
+        auto lost = class_recs_of(victim);
+        g.ev_load(g.order(without(lost)));
+        auto& up = g.ev_update(0);
+        if (pol != "dfr" && g.r.chance(0.3)) {
+            up.fork = 1;
+            up.mode = HM_RETURNS;
+            g.ev_update(0); // and with a throwing handler, in this process
+        }
+        // repair: the registration arrives, the next update is clean
+        g.ev_load(std::vector<int>(lost.begin(), lost.end()));
+        g.ev_update(0);
+        g.ev_check(0, 1, 150);
+        return g.p;
+    }
+    // places 3-6: the class is not mentioned by any registration; it shows
+    // up as the dynamic class of an argument
+    std::vector<int> leaves;
+    for (int c = 0; c < n; ++c)
+        if (g.desc[c] == (1u << c) && !g.p.w.abstract[c] &&
+            !g.p.w.parents[c].empty())
+            leaves.push_back(c);
+    if (leaves.empty() || place == 6) {
+        // final with another dynamic type
+        g.ev_load(g.order(all));
+        g.ev_update(0);
+        Registry reg = full_registry(g.p, 0);
+        Lattice L = make_lattice(g.p, reg);
+        for (int mi : reg.methods) {
+            auto& m = g.p.recs[mi];
+            std::string kinds = SLOT_KINDS[m.slot];
+            std::vector<char> vk;
+            for (char c : kinds)
+                if (c != 'I')
+                    vk.push_back(c);
+            std::vector<int> tuple;
+            if (!find_tuple(g, reg, L, mi, false, tuple) &&
+                !find_tuple(g, reg, L, mi, true, tuple))
+                continue;
+            for (std::size_t i = 0; i < vk.size(); ++i) {
+                if (vk[i] != 'Q' && vk[i] != 'C')
+                    continue;
+                Event e = make_call(g, 0, mi, tuple);
+                e.rts[i] = RT_FINAL | 0x100;
+                if (g.r.chance(0.3)) {
+                    e.fork = 1;
+                    e.mode = HM_RETURNS;
+                }
+                g.p.events.push_back(e);
+                break;
+            }
+        }
+        g.ev_check(0, ROUTES_BASIC, 100);
+        return g.p;
+    }
+    int victim = leaves[g.r.below(leaves.size())];
+    std::set<int> lost = class_recs_of(victim);
+    for (int ri : all)
+        if (g.p.recs[ri].kind != RK_CLASS && refs_class(ri, victim))
+            lost.insert(ri);
+    g.ev_load(g.order(without(lost)));
+    g.ev_update(0);
+    Registry reg = full_registry(g.p, 0, lost);
+    // definitions of lost methods are gone too
+    for (int ri : all)
+        if (g.p.recs[ri].kind == RK_DEF && lost.count(g.p.recs[ri].meth))
+            lost.insert(ri);
+    reg = full_registry(g.p, 0, lost);
+    Lattice L = make_lattice(g.p, reg);
+    int made = 0;
+    for (int mi : reg.methods) {
+        auto& m = g.p.recs[mi];
+        std::string kinds = SLOT_KINDS[m.slot];
+        std::vector<char> vk;
+        for (char c : kinds)
+            if (c != 'I')
+                vk.push_back(c);
+        for (std::size_t i = 0; i < m.vp.size(); ++i) {
+            if (!((g.anc[victim] >> m.vp[i]) & 1u))
+                continue; // the object could not be passed here
+            std::vector<int> tuple;
+            bool ok = true;
+            for (std::size_t j = 0; j < m.vp.size(); ++j) {
+                if (j == i) {
+                    tuple.push_back(victim);
+                    continue;
+                }
+                auto lc = legal_classes(L, m.vp[j]);
+                if (lc.empty()) {
+                    ok = false;
+                    break;
+                }
+                tuple.push_back(lc[g.r.below(lc.size())]);
+            }
+            if (!ok)
+                continue;
+            Event e = make_call(g, 0, mi, tuple);
+            if (vk[i] == 'Q' || vk[i] == 'C') {
+                static const int rts[] = {RT_REF, RT_EXACT, RT_COPY, RT_MOVE};
+                e.rts[i] = rts[g.r.below(4)];
+            } else if (vk[i] == 'W') {
+                static const int rts[] = {RT_REF, RT_EXACT, RT_COPY, RT_MOVE};
+                e.rts[i] = rts[g.r.below(4)];
+            }
+            e.resolve = g.r.chance(0.3);
+            if (g.r.chance(0.25) && pol != "dfr") {
+                e.fork = 1;
+                e.mode = g.r.chance(0.7) ? HM_RETURNS : HM_DEFAULT;
+                e.resolve = 0;
+            }
+            g.p.events.push_back(e);
+            ++made;
+        }
+    }
+    // virtual_ptr construction alone
+    if (place >= 4 || !made) {
+        for (int k = 0; k < 2; ++k) {
+            Event e;
+            e.op = OP_VP_MAKE;
+            e.pol = 0;
+            e.vslot = k;
+            e.cls = victim;
+            e.alias = 0;
+            e.shared = g.r.chance(0.3);
+            static const int rts[] = {RT_REF, RT_EXACT, RT_COPY, RT_MOVE};
+            e.route = rts[g.r.below(4)];
+            g.p.events.push_back(e);
+        }
+    }
+    // the process survived the reports: everything else still dispatches
+    g.ev_check(0, ROUTES_BASIC, 100);
+    // repair
+    std::vector<int> back;
+    for (int ri : all)
+        if (lost.count(ri))
+            back.push_back(ri);
+    g.ev_load(g.order(back));
+    g.ev_update(0);
+    g.ev_check(0, ROUTES_BASIC, 100);
+    return g.p;
+}
+
+// C05, registry part: id families, growing and shrinking registries,
+// exhausted search budgets, seeded searches
+Plan gen_C05(std::uint64_t seed, int tier) {
+    Rng r(seed ^ 0xC05);
+    HistOpts h;
+    h.b.pols = {"dbg", "dbg", "rel", "ind", "cind", "thr", "dfr", "sdbg", "srel"};
+    h.b.min_cls = 1;
+    h.b.max_cls = tier ? 28 : 20;
+    h.b.max_alias = r.chance(0.5) ? 3 : 1;
+    h.b.max_meth = 2;
+    h.b.max_defs = 3;
+    h.faults = true;
+    h.relocate = true;
+    h.min_steps = 3;
+    h.max_steps = 12;
+    h.hash_faults_only = true;
+    return gen_history("C05", seed, tier, h, "");
 }
 
 Plan gen_C03(std::uint64_t seed, int tier) {
@@ -1074,8 +1578,9 @@ Plan gen_C14(std::uint64_t seed, int tier) {
 } // namespace
 
 bool has_profile(const std::string& prop) {
-    static const char* props[] = {"C01", "C02", "C03", "C04", "C06", "C07",
-                                  "C08", "C10", "C14", "C17", "C18"};
+    static const char* props[] = {"C01", "C02", "C03", "C04", "C05", "C06",
+                                  "C07", "C08", "C09", "C10", "C14", "C15",
+                                  "C17", "C18"};
     for (auto p : props)
         if (prop == p)
             return true;
@@ -1091,6 +1596,12 @@ Plan generate(const std::string& prop, std::uint64_t seed, int tier) {
         return gen_C03(seed, tier);
     if (prop == "C04")
         return gen_C04(seed, tier);
+    if (prop == "C05")
+        return gen_C05(seed, tier);
+    if (prop == "C09")
+        return gen_C09(seed, tier);
+    if (prop == "C15")
+        return gen_C15(seed, tier);
     if (prop == "C06")
         return gen_C06(seed, tier);
     if (prop == "C07")
